@@ -550,6 +550,11 @@ func (w *world) exec(line string) {
 		})
 		fmt.Fprintln(w.ann, line)
 		w.result("clean", nil, before, out)
+	case "pdiff":
+		// white-box: the report builder on its own
+		rep := prettyDiff(unhx(tok[1]), unhx(tok[2]), unhx(tok[3]), atoi(tok[4]))
+		fmt.Fprintln(w.ann, line)
+		fmt.Fprintf(w.out, "pdiff ev= w= d= out=%s\n", hx(rep))
 	case "fsput":
 		p := w.abs(unhx(tok[1]))
 		os.MkdirAll(filepath.Dir(p), 0o755)
